@@ -12,10 +12,12 @@ import (
 	"errors"
 	"fmt"
 	"io"
+	"io/fs"
 	"net/netip"
 	"slices"
 	"strings"
 	"testing"
+	"time"
 
 	"github.com/AdguardTeam/golibs/hostsfile"
 	"github.com/AdguardTeam/golibs/netutil"
@@ -281,6 +283,29 @@ type namedReader struct {
 
 func (r namedReader) Name() string { return r.name }
 
+// statReader is a source with a Stat method; size < 0 makes Stat fail.
+type statReader struct {
+	*kernel.SimReader
+	size int64
+}
+
+type fileInfo struct{ size int64 }
+
+func (fi fileInfo) Name() string       { return "hosts" }
+func (fi fileInfo) Size() int64        { return fi.size }
+func (fi fileInfo) Mode() fs.FileMode  { return 0o644 }
+func (fi fileInfo) ModTime() time.Time { return time.Time{} }
+func (fi fileInfo) IsDir() bool        { return false }
+func (fi fileInfo) Sys() any           { return nil }
+
+func (r statReader) Stat() (fs.FileInfo, error) {
+	if r.size < 0 {
+		return nil, errors.New("stat: not supported")
+	}
+
+	return fileInfo{size: r.size}, nil
+}
+
 // lineErrors collects the *LineError values in a (joined, wrapped) error.
 func lineErrors(err error, out *[]*hostsfile.LineError) {
 	if err == nil {
@@ -367,7 +392,13 @@ func runParse(c *ctx) {
 		// The simulated reader behind one of the standard library's readers,
 		// or (fault free) a standard in-memory reader: the concrete types
 		// sources have in practice.
-		switch k := tp.Choose(5); {
+		switch k := tp.Choose(6); {
+		case k == 5:
+			// A source that can be asked for its size, as an *os.File can, and
+			// whose answer says little about what it will deliver (pipes,
+			// /proc files and files that grow report 0 or a stale size).
+			srcKind = "stat"
+			src = statReader{SimReader: sr, size: []int64{0, int64(len(text)), int64(len(text) / 2), 1 << 40, -1}[tp.Choose(5)]}
 		case k <= 1:
 			srcKind = "bufio"
 			src = bufio.NewReaderSize(sr, []int{16, 64, 4096}[tp.Choose(3)])
@@ -412,7 +443,7 @@ func runParse(c *ctx) {
 			dataReads++
 		}
 	}
-	c.nonTriv = nLines >= 1 && (dataReads >= 2 || (srcKind != "sim" && srcKind != "bufio"))
+	c.nonTriv = nLines >= 1 && (dataReads >= 2 || (srcKind != "sim" && srcKind != "bufio" && srcKind != "stat"))
 	c.logf("reader calls: %d (%d with data); Parse error: %v", len(sr.Calls), dataReads, err)
 	for _, it := range got {
 		c.logf("  got %s", it)
@@ -720,7 +751,33 @@ func runStorage(c *ctx) {
 		text = append(text, (rec.Addr.String() + " " + strings.Join(rec.Names, " ") + "\n")...)
 	}
 	whole, err1 := hostsfile.NewDefaultStorage(bytes.NewReader(text))
-	frag, err2 := hostsfile.NewDefaultStorage(kernel.NewSimReader(tp, rc.Stats, text, false))
+	// NewDefaultStorage takes any number of sources: the text is cut at line
+	// boundaries into 1-3 of them, and a source that is not the last may lack
+	// its final newline.
+	var parts [][]byte
+	rest := text
+	for nParts := tp.Range(1, 3); nParts > 1 && len(rest) > 0; nParts-- {
+		lines := bytes.SplitAfter(rest, []byte{'\n'})
+		cut := 0
+		for _, l := range lines[:tp.Choose(len(lines))] {
+			cut += len(l)
+		}
+		part := rest[:cut]
+		rest = rest[cut:]
+		if len(part) > 0 && tp.Bool(1, 2) {
+			part = part[:len(part)-1]
+		}
+		parts = append(parts, part)
+	}
+	parts = append(parts, rest)
+	var readers []io.Reader
+	for _, part := range parts {
+		readers = append(readers, kernel.NewSimReader(tp, rc.Stats, part, false))
+	}
+	if len(readers) > 1 {
+		rc.Stats.Probe("storage-from-several-sources")
+	}
+	frag, err2 := hostsfile.NewDefaultStorage(readers...)
 	if err1 != nil || err2 != nil || !whole.Equal(frag) || !frag.Equal(s) {
 		rc.Fail("end-to-end", "NewDefaultStorage", fmt.Sprintf(
 			"parsing %q through a fragmenting reader and through one read give different storages (errors %v / %v)", text, err1, err2))
